@@ -71,14 +71,15 @@ Theorem wn_reverse_contour v0 vs p : (forall v, In v (v0 :: vs) -> snd p <> snd 
   wn_contour (v0 :: rev vs) p = - wn_contour (v0 :: vs) p.
 Proof.
   intro Hl. rewrite !wn_contour_chain.
-  replace (v0 :: rev vs ++ [v0]) with (rev (v0 :: vs ++ [v0])).
-  2:{ change (v0 :: vs ++ [v0]) with ((v0 :: vs) ++ [v0]). rewrite rev_app_distr. cbn [rev app]. reflexivity. }
+  assert (E : v0 :: rev vs ++ [v0] = rev (v0 :: vs ++ [v0])).
+  { change (v0 :: vs ++ [v0]) with ((v0 :: vs) ++ [v0]). rewrite rev_app_distr. cbn [rev app]. reflexivity. }
+  etransitivity; [exact (f_equal (chain (edge_w p)) E)|].
   rewrite chain_rev. rewrite <- chain_opp. apply chain_ext.
   intros a b Ha Hb. apply edge_w_reverse.
-  - apply Hl. change (v0 :: vs ++ [v0]) with ((v0 :: vs) ++ [v0]) in Hb. apply in_app_or in Hb.
-    destruct Hb as [Hb|[Hb|[]]]; [exact Hb|subst; left; reflexivity].
   - apply Hl. change (v0 :: vs ++ [v0]) with ((v0 :: vs) ++ [v0]) in Ha. apply in_app_or in Ha.
     destruct Ha as [Ha|[Ha|[]]]; [exact Ha|subst; left; reflexivity].
+  - apply Hl. change (v0 :: vs ++ [v0]) with ((v0 :: vs) ++ [v0]) in Hb. apply in_app_or in Hb.
+    destruct Hb as [Hb|[Hb|[]]]; [exact Hb|subst; left; reflexivity].
 Qed.
 
 Example wn_reverse_ex : wn_contour [(0, 0); (0, 4); (4, 4); (4, 0)] (1, 1) = - wn_contour [(0, 0); (4, 0); (4, 4); (0, 4)] (1, 1)
@@ -107,16 +108,16 @@ Theorem sub_ok_sound_cubic sl a b c d a' b' c' d' s u :
 Proof.
   unfold sub_ok. intro H. repeat (apply andb_prop in H; destruct H as [H ?]).
   repeat match goal with H : Qle_bool _ _ = true |- _ => apply Qle_bool_iff in H end.
-  repeat split; try assumption.
-  intros t Ht. cbn [sub_ctrl all2] in *.
+  split; [assumption|]. split; [assumption|]. split; [assumption|].
+  intros tt Ht. cbn [sub_ctrl all2] in *.
   destruct (sub3 (fst a) (fst b) (fst c) (fst d) s u) as [[[x0 x1] x2] x3] eqn:EX.
   destruct (sub3 (snd a) (snd b) (snd c) (snd d) s u) as [[[y0 y1] y2] y3] eqn:EY.
   cbn [all2] in *.
   repeat match goal with H : _ && _ = true |- _ => apply andb_prop in H; destruct H end.
   repeat match goal with H : nearb _ _ _ = true |- _ => apply nearb_near in H end.
   unfold near in *. cbn [fst snd Bcube] in *.
-  pose proof (sub3_eval (fst a) (fst b) (fst c) (fst d) s u t) as EvX. rewrite EX in EvX.
-  pose proof (sub3_eval (snd a) (snd b) (snd c) (snd d) s u t) as EvY. rewrite EY in EvY.
+  pose proof (sub3_eval (fst a) (fst b) (fst c) (fst d) s u tt) as EvX. rewrite EX in EvX.
+  pose proof (sub3_eval (snd a) (snd b) (snd c) (snd d) s u tt) as EvY. rewrite EY in EvY.
   rewrite <- EvX, <- EvY.
   split; apply bcube_perturb; try assumption; intuition.
 Qed.
@@ -128,16 +129,16 @@ Theorem sub_ok_sound_quad sl a b c a' b' c' s u :
 Proof.
   unfold sub_ok. intro H. repeat (apply andb_prop in H; destruct H as [H ?]).
   repeat match goal with H : Qle_bool _ _ = true |- _ => apply Qle_bool_iff in H end.
-  repeat split; try assumption.
-  intros t Ht. cbn [sub_ctrl all2] in *.
+  split; [assumption|]. split; [assumption|]. split; [assumption|].
+  intros tt Ht. cbn [sub_ctrl all2] in *.
   destruct (sub2 (fst a) (fst b) (fst c) s u) as [[x0 x1] x2] eqn:EX.
   destruct (sub2 (snd a) (snd b) (snd c) s u) as [[y0 y1] y2] eqn:EY.
   cbn [all2] in *.
   repeat match goal with H : _ && _ = true |- _ => apply andb_prop in H; destruct H end.
   repeat match goal with H : nearb _ _ _ = true |- _ => apply nearb_near in H end.
   unfold near in *. cbn [fst snd Bquad] in *.
-  pose proof (sub2_eval (fst a) (fst b) (fst c) s u t) as EvX. rewrite EX in EvX.
-  pose proof (sub2_eval (snd a) (snd b) (snd c) s u t) as EvY. rewrite EY in EvY.
+  pose proof (sub2_eval (fst a) (fst b) (fst c) s u tt) as EvX. rewrite EX in EvX.
+  pose proof (sub2_eval (snd a) (snd b) (snd c) s u tt) as EvY. rewrite EY in EvY.
   rewrite <- EvX, <- EvY.
   split; apply bquad_perturb; try assumption; intuition.
 Qed.
